@@ -175,20 +175,23 @@ def run(chk):
     # (B1, DTLS 1.3, server flight in several datagrams) spec/Handshake13F.tla: selective acknowledgement and retransmission;
     # false acknowledgements (AckSound) lose data for good, so that predicate is judged here too
     hsreplay13f.liveness(chk)
-    s13f = hsreplay13f.generate(chk, limit=12000 if chk.quick else 60000)
-    rows, summ = hsreplay13f.replay(chk, binary, s13f)
-    ninc = 0
-    for r in rows:
-        bad = [x for x in r.get("law", []) if "C02" in x]
-        if not r["completed"] or bad:
-            ninc += 1
-            chk.violation({"kind": "no-completion-after-faults", "variant": "dtls13-fragmented-flight", "final": r.get("final"), "wedge": r.get("wedge"),
-                           "what": (bad or ["both endpoints did not complete once the network turned reliable"])[0],
-                           "cerr": r.get("cerr"), "serr": r.get("serr"),
-                           "script13f": {"scen": hsreplay13f.SCEN, "steps": s13f[r["script"]]["steps"], "qmax": hsreplay13f.QMAX, "bkcap": 3}})
-        elif r.get("diverge") and ninc == 0 and summ.get("diverged", 0) <= 2:
-            chk.note("DIVERGENCE model/code (1.3 fragmented flight script %d): %s" % (r["script"], r["diverge"][0]))
-    chk.parts["replay13f"] = {"scripts": summ["scripts"], "completed": summ.get("completed", 0), "diverged": summ.get("diverged", 0)}
+    for variant, lim in (("", 12000 if chk.quick else 60000), ("m400", 6000 if chk.quick else 30000)):
+        s13f = hsreplay13f.generate(chk, limit=lim, variant=variant)
+        rows, summ = hsreplay13f.replay(chk, binary, s13f, variant=variant)
+        ninc = 0
+        for r in rows:
+            bad = [x for x in r.get("law", []) if "C02" in x]
+            if not r["completed"] or bad:
+                ninc += 1
+                chk.violation({"kind": "no-completion-after-faults", "variant": "dtls13-fragmented-flight" + variant, "final": r.get("final"),
+                               "wedge": r.get("wedge"),
+                               "what": (bad or ["both endpoints did not complete once the network turned reliable"])[0],
+                               "cerr": r.get("cerr"), "serr": r.get("serr"),
+                               "script13f": {"scen": hsreplay13f.scen_of(variant), "steps": s13f[r["script"]]["steps"], "qmax": hsreplay13f.QMAX, "bkcap": 3}})
+            elif r.get("diverge") and ninc == 0 and summ.get("diverged", 0) <= 2:
+                chk.note("DIVERGENCE model/code (1.3 fragmented flight %s script %d): %s" % (variant, r["script"], r["diverge"][0]))
+        chk.parts["replay13f" + variant] = {"scripts": summ["scripts"], "completed": summ.get("completed", 0), "diverged": summ.get("diverged", 0)}
+        del s13f
     # (B2)
     cases = mask_cases(chk)
     rows, summ = run_masks(chk, binary, cases)
